@@ -44,6 +44,15 @@ ln G_i) through the engine and through both evaluators; moderate levels (|level|
 formulas through the evaluators.  Ordered models without a database as well (get_value: ordered_logit only, the Python
 evaluator has no normal CDF).
 
+Ordered models over the declared parameter domain: the thresholds are values of parameters - the user's Beta for the first
+one and Betas that the library creates and declares itself (initial value, bounds) for the following ones.  For K = 2..5
+(thorough ..6) categories and every exported entry point (ordered_logit, ordered_probit, ordered_likelihood with the logistic
+/ normal CDF) the free parameters and their bounds are read from the returned expressions and the model is evaluated on the
+full product of a grid of values inside these declared bounds (the bound itself, points at the alphabet's distances from it,
+both signs where a side is unbounded), for every declaration of the user's threshold (unbounded, lower, upper, both bounds),
+and at the declared initial values (no parameter value supplied).  Clauses: [0,1], sum = 1 everywhere in the declared
+domain; the closed form where the cumulated thresholds are in order.
+
 Oracle per (utility vector, availability pattern): every probability in [0,1]; zero when unavailable; sum = 1;
 equal to the textbook closed form (vf.ref_mev: own G(y), closed form cross-checked with dual numbers; it never
 imports biogeme); unchanged when one constant is added to all utilities; log model == ln(probability model).
@@ -70,7 +79,10 @@ RULE = ('one case = one (model, expression forms, nest structure, parameter assi
         'whole utility grid (every utility vector x every chosen alternative x every shift is one compared probability '
         'vector, counted in evaluations). Non-trivial: at least two alternatives available, and for nested / cross-nested / '
         'user-MEV models additionally a nest with parameter != scale holding >= 2 available alternatives (so that the MEV '
-        'probabilities differ from logit); ordered models: every (K, thresholds) point. distinct = distinct such keys. '
+        'probabilities differ from logit); ordered models: every (K, thresholds) point; over the declared parameter domain: '
+        'every (entry point, K, declared bounds of the first threshold, form of the value, point of the product of the '
+        'per-parameter grids inside the bounds read from the returned expressions | declared initial values) x value. '
+        'distinct = distinct such keys. '
         'Histories: one case = one evaluated call of one history (sequence of entry points called with one set of argument '
         'objects) x availability pattern, same non-triviality rule, the history is part of the key. Evaluations without a database: '
         'one case = one (model, forms, structure, parameters, availability pattern, evaluator) evaluated on every utility vector x '
@@ -119,6 +131,13 @@ ASSUMPTIONS = [
     'compatible names and ln G_i helpers; CNL (2 nests): every J=2 structure, every fourth (quick) / every J=3 one-split '
     'structure; get_value_c() on a rotating subset (quick) of these; ordered_probit has no Python evaluator '
     '(bioNormalCdf.get_value is not implemented): counted as skipped, not demanded',
+    'ordered models over the declared parameter domain: 3 grid values per bounded parameter (bound, bound + smallest and + largest '
+    'distance of the alphabet; both bounds: ends and midpoint), 4 per unbounded one (two negative, 0, one positive); K <= 5 (quick) / '
+    '6 categories; the 4 declarations of the user threshold are all taken for K <= 3 (quick) / K <= 5, a rotating subset above; the '
+    'form of the continuous value (data column / free Beta x column) alternates with the point in quick; the closed form is only '
+    'compared where the cumulated thresholds are non-decreasing and the created parameters carry the documented names '
+    '(<tau>_diff_<category>), elsewhere only [0,1] and sum = 1; values are those of a grid, not of an estimation run; points with '
+    'value - smallest threshold >= 6 are skipped for the normal CDF (engine tail, known finding) and counted',
     'ordered probit: the main grid keeps value - threshold < 6 because the external engine normal CDF is wrong above 6 '
     '(separate tail task, known finding); closed forms in that tail are not compared',
 ]
@@ -170,6 +189,8 @@ for _a, (_big, _mid) in zip(ALPHABETS, _LEVELS):
 _CORS = [[0.0, -0.9, 1.4], [0.7, 0.0, -1.6], [-0.35, 2.1, 0.0], [0.0, 1.25, -2.3], [-1.1, 0.0, 0.45]]
 for _a, _c in zip(ALPHABETS, _CORS):
     _a['cors'] = _c
+for _i, _a in enumerate(ALPHABETS):
+    _a['_seed'] = _i
 
 
 def alphabet(seed):
@@ -903,6 +924,10 @@ def tasks(tier, seed):
     for K in (2, 3, 4):
         for ev in ('py', 'c0'):
             t.append(dict(part='ordered_nodb', K=K, ev=ev, seed=seed, tier=tier))
+    # (F') ordered models over the parameter domain that the library declares (bounds of the threshold parameters)
+    for K, entry, menus, vform in ordered_domain_plan(alph, tier, seed):
+        for ms in ([menus] if K <= 4 else [[m] for m in menus]):
+            t.append(dict(part='ordered_domain', K=K, entry=entry, menus=ms, vform=vform, seed=seed, tier=tier))
     # (J) MEV models with correction terms (mev_endogenous_sampling / logmev_endogenous_sampling and their old names)
     for J in range(2, Jmax + 1):
         for ch in _chunks(endo_gens(alph, J, tier, seed), 4 if J == 2 else 2):
@@ -957,6 +982,8 @@ def run_task(task):
         _part_pyeval(task, alph, rec)
     elif part == 'ordered_nodb':
         _part_ordered_nodb(task, alph, rec)
+    elif part == 'ordered_domain':
+        _part_ordered_domain(task, alph, rec)
     elif part == 'endo':
         _part_endo(task, alph, rec)
     elif part == 'endo_lib':
@@ -2060,9 +2087,188 @@ def _part_ordered_tail(task, alph, rec):
     rec.sample(dict(part='ordered_tail', xs=xs))
 
 
+# --------------------------------------------------------------------------- ordered models over the declared parameter domain
+# The thresholds of an ordered model are values of parameters: the first one is the user's Beta, the following ones are
+# built by the library from Betas that it creates and declares itself (name, initial value, bounds).  "For all thresholds"
+# therefore ranges over every value that the declared bounds of these parameters admit - the set an estimation algorithm is
+# free to move in -, not only over values that the driver knows to be sensible.  This part reads the free parameters and
+# their bounds from the expressions that the library returns and enumerates the grid below for each of them.
+ORD_ENTRIES = ['ordered_logit', 'ordered_probit', 'ordered_likelihood+logisticcdf', 'ordered_likelihood+bioNormalCdf']
+ORD_TAU_NAMES = ['tau_o', 'thr', 'B_TAU', 'tau_1_2', 't']
+DOMAIN_KEY = 'thresholds-within-declared-bounds'
+
+
+def ordered_model_of(entry):
+    """entry point -> the ordered model it is (for the reference CDF and the engine-tail exclusion)"""
+    return 'ordered_probit' if entry in ('ordered_probit', 'ordered_likelihood+bioNormalCdf') else 'ordered_logit'
+
+
+def ordered_tau_menus(alph):
+    """declared bounds of the user's first threshold parameter"""
+    lo, hi = alph['tau1'][0], alph['tau1'][2]
+    return [[None, None], [lo, None], [None, hi], [lo, hi]]
+
+
+def domain_values(alph, lb, ub):
+    """values of one parameter inside its declared bounds [lb, ub] (None = unbounded on that side): the bounds themselves
+    when there are, points at the distances of the alphabet's grid from them; both signs when the parameter is unbounded."""
+    d = alph['diffs']
+    if lb is None and ub is None:
+        return [-d[2], -d[0], 0.0, d[1]]
+    if ub is None:
+        return [float(lb), float(lb) + d[0], float(lb) + d[2]]
+    if lb is None:
+        return [float(ub) - d[2], float(ub) - d[0], float(ub)]
+    lb, ub = float(lb), float(ub)
+    return [lb, 0.5 * (lb + ub), ub] if ub > lb else [lb]
+
+
+def build_ordered(entry, val, cats, tau):
+    from biogeme import models
+    if '+' in entry:
+        import biogeme.distributions as dist
+        from biogeme.expressions import bioNormalCdf
+        cdf = dist.logisticcdf if entry.endswith('logisticcdf') else bioNormalCdf
+        return models.ordered_likelihood(continuous_value=val, list_of_discrete_values=list(cats), tau_parameter=tau, cdf=cdf)
+    return getattr(models, entry)(val, list(cats), tau)
+
+
+def check_ordered_domain(entry, cats, xs, tb, vform, tau_name, alph, rec, only=None):
+    """One model (entry point, categories, declared bounds tb of the user's threshold, form of the continuous value) on
+    every point of the product of the domain grids of its free parameters, plus the point 'defaults' (no parameter value
+    given: the initial values declared with the parameters).  only = (point, x): replay of that single evaluation (it is
+    evaluated only if the point still belongs to the enumerated domain).  vform 'alt' alternates the form with the point."""
+    import numpy as np
+    import pandas as pd
+    import biogeme.database as bdb
+    from biogeme.expressions import Variable, Beta, TypeOfElementaryExpression
+    model = ordered_model_of(entry)
+    cdf = R.logistic_cdf if model == 'ordered_logit' else R.normal_cdf
+    K = len(cats)
+    xs = [float(x) for x in xs]
+    db = bdb.Database('od05', pd.DataFrame({'pad': [1.0] * len(xs), 'X': xs}))
+    case0 = dict(part='ordered_domain', entry=entry, cats=list(cats), tb=list(tb), tau_name=tau_name, seed=alph['_seed'])
+    built = {}
+
+    def build(vf):
+        if vf not in built:
+            tau = Beta(tau_name, alph['tau1'][1], tb[0], tb[1], 0)
+            val = Variable('X') if vf == 'var' else Beta('b_scale', 1.0, None, None, 0) * Variable('X')
+            probs = build_ordered(entry, val, cats, tau)
+            params = {}
+            for e in probs.values():
+                params.update(e.dict_of_elementary_expression(TypeOfElementaryExpression.FREE_BETA))
+            built[vf] = (probs, params)
+        return built[vf]
+
+    probs, params = build('var')
+    if sorted(probs) != sorted(cats):
+        rec.violation(f'{ID}|ordered-categories-missing|{entry}:K={K}:{DOMAIN_KEY}', f'{entry} returned categories {sorted(probs)} '
+                      f'for {cats}', dict(case0, xs=xs, vform='var', point=None))
+        return
+    lib_names = [n for n in params if n not in (tau_name, 'b_scale')]
+    expected = [f'{tau_name}_diff_{c}' for c in cats[1:-1]]
+    known_names = sorted(lib_names) == sorted(expected)
+    if known_names:
+        lib_names = expected
+    else:
+        lib_names = sorted(lib_names)
+        rec.count('ordered_domain_parameter_names_unknown_no_closed_form')
+    declared = {n: [params[n].lb, params[n].ub] for n in lib_names}
+    grids = [domain_values(alph, tb[0], tb[1])] + [domain_values(alph, *declared[n]) for n in lib_names]
+    names = [tau_name] + lib_names
+    points = [None] + [dict(zip(names, v)) for v in itertools.product(*grids)]
+    if only is not None:
+        points = [p for p in points if p == only[0]]
+        xs_sel = [only[1]]
+    for pi, point in enumerate(points):
+        vf = vform if vform != 'alt' else ('var', 'scaled')[pi % 2]
+        probs, params = build(vf)
+        if point is None:
+            values = {}
+            for e in probs.values():
+                values.update(e.get_beta_values())
+            betas = None
+        else:
+            values = dict(point)
+            betas = dict(point)
+            if vf == 'scaled':
+                betas['b_scale'] = 1.0
+        got = {c: np.asarray(e.get_value_c(database=db, betas=betas, prepare_ids=True), dtype=float) for c, e in probs.items()}
+        ordered_taus = None
+        tmin = float(values.get(tau_name, 0.0))
+        if known_names and all(n in values for n in names):
+            taus = [float(values[tau_name])]
+            for n in lib_names:
+                taus.append(taus[-1] + float(values[n]))
+            tmin = min(taus)
+            if all(b >= a for a, b in zip(taus, taus[1:])):
+                ordered_taus = taus
+        where = 'the initial values declared with the parameters' if point is None else f'parameter values {point}'
+        for r, x in enumerate(xs):
+            if only is not None and x not in xs_sel:
+                continue
+            P = [float(got[c][r]) for c in cats]
+            if model == 'ordered_probit' and x - tmin >= 6.0:
+                rec.count('ordered_domain_skipped_engine_normal_cdf_tail')
+                continue
+            c1 = dict(case0, xs=[x], vform=vf, point=point)
+            out = [p for p in P if not (-ABS <= p <= 1.0 + ABS)]
+            if out:
+                rec.violation(f'{ID}|probability-outside-unit-interval|{entry}:{DOMAIN_KEY}',
+                              f'{entry}({cats}) at value {x} with {where} (declared bounds: {tau_name} {tb}, created by the '
+                              f'library {declared}): probabilities {P} leave [0,1]', c1, expected='0 <= P <= 1', observed=P)
+            elif not abs(sum(P) - 1.0) <= 1e-10:
+                rec.violation(f'{ID}|probabilities-do-not-sum-to-one|{entry}:{DOMAIN_KEY}',
+                              f'{entry}({cats}) at value {x} with {where} (declared bounds: {tau_name} {tb}, created by the '
+                              f'library {declared}): sum {sum(P)}', c1, expected=1.0, observed=P)
+            elif ordered_taus is not None:
+                ref = R.ordered_probs(x, ordered_taus, cdf)
+                if not all(R.close(p, q, REL, ABS) for p, q in zip(P, ref)):
+                    rec.violation(f'{ID}|differs-from-closed-form|{entry}:{DOMAIN_KEY}',
+                                  f'{entry}({cats}) at value {x} with {where}, cumulated thresholds {ordered_taus}: {P} instead '
+                                  f'of {ref}', c1, expected=ref, observed=P)
+            rec.case(json.dumps([entry, list(cats), x, tb, vf, tau_name, 'defaults' if point is None else sorted(point.items())]),
+                     P, outcome=(entry, K, 'domain', not out, point is None))
+    return dict(points=len(points), declared=declared)
+
+
+def ordered_domain_plan(alph, tier, seed):
+    """(K, entry, index of the menu of declared bounds of the user's threshold, vform)"""
+    quick = tier == 'quick'
+    s = int(seed)
+    plan = []
+    for K in ((2, 3, 4, 5) if quick else (2, 3, 4, 5, 6)):
+        for ei, entry in enumerate(ORD_ENTRIES):
+            if quick:
+                menus = [0, 1, 2, 3] if K <= 3 else ([0, 1 + (s + ei) % 3] if K == 4 else [(s + ei) % 4])
+            else:
+                menus = [0, 1, 2, 3] if K <= 5 else [(s + ei) % 4]
+            plan.append((K, entry, menus, 'alt' if (quick or K == 6) else 'both'))
+    return plan
+
+
+def _part_ordered_domain(task, alph, rec):
+    K, entry = task['K'], task['entry']
+    cats = (alph['cats'] + [alph['cats'][-1] + 3, alph['cats'][-1] + 4])[:K]
+    tau_name = ORD_TAU_NAMES[(int(task['seed']) + K) % len(ORD_TAU_NAMES)]
+    menus = ordered_tau_menus(alph)
+    info = None
+    for mi in task['menus']:
+        for vform in (('var', 'scaled') if task['vform'] == 'both' else (task['vform'],)):
+            info = check_ordered_domain(entry, cats, alph['xs'], menus[mi], vform, tau_name, alph, rec)
+    rec.sample(dict(part='ordered_domain', entry=entry, categories=cats, tau_name=tau_name, menus=[menus[m] for m in task['menus']],
+                    last=info))
+
+
 # --------------------------------------------------------------------------- replay
 def replay(case):
     rec = Rec()
+    if case['part'] == 'ordered_domain':
+        alph = alphabet(case['seed'])
+        check_ordered_domain(case['entry'], case['cats'], case['xs'], case['tb'], case['vform'], case['tau_name'], alph, rec,
+                             only=(case['point'], case['xs'][0]))
+        return rec.violations
     if case['part'] == 'ordered':
         check_ordered(case['model'], case['cats'], case['xs'], case['t1'], case['ds'], rec, case['vform'], case.get('tail', False),
                       ev=case.get('ev'))
